@@ -72,11 +72,11 @@ Proof.
   - destruct (Z.eqb_spec y z); auto.
 Qed.
 
-Lemma func_redefinition_restored : forall c f y,
-  let c' := fst (newBind c f CFunc KBox 0) in
+Lemma func_redefinition_restored : forall c f t y,
+  let c' := fst (newBind c f CFunc (KBoxT t) 0) in
   bget (binds (funcRestore c c' f)) y = bget (binds c) y.
 Proof.
-  intros c f y c'. unfold funcRestore.
+  intros c f t y c'. unfold funcRestore.
   destruct (Z.eqb_spec y f) as [E|NE].
   - subst y. destruct (bget (binds c) f) as [b|] eqn:G; simpl.
     + rewrite Z.eqb_refl. reflexivity.
@@ -87,12 +87,12 @@ Proof.
 Qed.
 
 (* ... also at the level of one evaluation of the code before the fix *)
-Lemma func_redefinition_restored_eval : forall st f y,
-  out_status (evalInput before_fix st [SFunc f false]) = CompileError /\
-  bget (binds (scomp (out_state (evalInput before_fix st [SFunc f false])))) y = bget (binds (scomp st)) y.
+Lemma func_redefinition_restored_eval : forall st f t y,
+  out_status (evalInput before_fix st [SFunc f t false]) = CompileError /\
+  bget (binds (scomp (out_state (evalInput before_fix st [SFunc f t false])))) y = bget (binds (scomp st)) y.
 Proof.
-  intros st f y. unfold evalInput, out_status, out_state; simpl.
-  destruct (newBind (scomp st) f CFunc KBox 0) as [c' b] eqn:NB; simpl. split; auto.
+  intros st f t y. unfold evalInput, out_status, out_state; simpl.
+  destruct (newBind (scomp st) f CFunc (KBoxT t) 0) as [c' b] eqn:NB; simpl. split; auto.
   change c' with (fst (c', b)). rewrite <- NB. apply func_redefinition_restored.
 Qed.
 
